@@ -72,43 +72,66 @@ def job_conf(job):
     gv = _labelled(False, triples, L, rng, known, {n: ren[v] for n, v in labels.items()})
     gn = _labelled(False, triples, L2, rng, known, labels)
     g1 = _labelled(False, triples, L, rng, known, {n: one for n in known})
-    obs = core.observe(g, L, known, grid)
-    combos = [(s, d, p) for s in range(grid[0], grid[1]) for d in range(0, grid[1] - grid[0]) for p in PTYPES]
-    if mode == "one":
-        # one-label graphs over the whole snapshot range, every path type (exact oracle: 1 iff the node reaches another)
-        combos = [(ts[0], ts[-1] - ts[0], p) for p in PTYPES] if ts else []
-    elif tier == "quick":
-        combos = rng.sample(combos, min(len(combos), 8))
-    else:
-        combos = rng.sample(combos, min(len(combos), 40))
-    es = []
-    for (s, d, p) in combos:
-        res, sc = _dc(g, L, s, d, p)
-        e = {"start": s, "delta": d, "ptype": p, "res": res, "sc": sc, "alphas": [int(a * 100) for a in ALPHAS],
-             "rv": _dc(gv, L, s, d, p)[1], "rn": _dc(gn, L2, s, d, p)[1], "one": _dc(g1, L, s, d, p)[1]}
-        es.append(e)
-    ss = []
-    for (d, p) in rng.sample([(d, p) for d in range(0, 3) for p in PTYPES], 0 if mode == "one" else (2 if tier == "quick" else 6)):
-        s = {"delta": d, "ptype": p, "sl": [], "per": []}
-        try:
-            with contextlib.redirect_stderr(io.StringIO()):   # progress bars
-                r = al.sliding_delta_conformity(g, d, ALPHAS, ["lab"], path_type=p)
-            s["res"] = "ok"
-            for a, prof in r.items():
-                for _p, nv in prof.items():
-                    for n, seq in nv.items():
-                        for (stamp, v) in seq:
-                            s["sl"].append([int(round(float(a) * 100)), L.anode(n), L.atime(stamp), int(round(v * SCALE))])
-        except Exception as ex:
-            s["res"] = core.exc_name(ex)
-        for t in obs["ids"]:
-            res, sc = _dc(g, L, t, d, p)
-            s["per"].append({"t": t, "res": res, "sc": sc})
-        ss.append(s)
+    def conf_line(tier, trs):
+        obs = core.observe(g, L, known, grid)
+        combos = [(s, d, p) for s in range(grid[0], grid[1]) for d in range(0, grid[1] - grid[0]) for p in PTYPES]
+        if mode == "one":
+            # one-label graphs over the whole snapshot range, every path type (exact oracle: 1 iff the node reaches another)
+            combos = [(ts[0], ts[-1] - ts[0], p) for p in PTYPES] if ts else []
+        elif tier == "quick":
+            combos = rng.sample(combos, min(len(combos), 8))
+        else:
+            combos = rng.sample(combos, min(len(combos), 40))
+        es = []
+        for (s, d, p) in combos:
+            res, sc = _dc(g, L, s, d, p)
+            e = {"start": s, "delta": d, "ptype": p, "res": res, "sc": sc, "alphas": [int(a * 100) for a in ALPHAS],
+                 "rv": _dc(gv, L, s, d, p)[1], "rn": _dc(gn, L2, s, d, p)[1], "one": _dc(g1, L, s, d, p)[1]}
+            es.append(e)
+        ss = []
+        for (d, p) in rng.sample([(d, p) for d in range(0, 3) for p in PTYPES], 0 if mode == "one" else (2 if tier == "quick" else 6)):
+            s = {"delta": d, "ptype": p, "sl": [], "per": []}
+            try:
+                with contextlib.redirect_stderr(io.StringIO()):   # progress bars
+                    r = al.sliding_delta_conformity(g, d, ALPHAS, ["lab"], path_type=p)
+                s["res"] = "ok"
+                for a, prof in r.items():
+                    for _p, nv in prof.items():
+                        for n, seq in nv.items():
+                            for (stamp, v) in seq:
+                                s["sl"].append([int(round(float(a) * 100)), L.anode(n), L.atime(stamp), int(round(v * SCALE))])
+            except Exception as ex:
+                s["res"] = core.exc_name(ex)
+            for t in obs["ids"]:
+                res, sc = _dc(g, L, t, d, p)
+                s["per"].append({"t": t, "res": res, "sc": sc})
+            ss.append(s)
+        return {"op": "conf", "fork": False, "res": "ok", "triples": [list(t) for t in trs],
+                "labels": [[n, repr(labels[n])] for n in known], "label_values": repr([vx, vy, rx, ry, one]), "obs": obs, "es": es, "ss": ss}
+
+    first = conf_line(tier, triples)
+    more = []
+    if mode != "one" and ts and rng.random() < 0.3:
+        # the same four objects are changed inside the observed range (a pair that never interacted appears at an
+        # existing snapshot id; otherwise some pair re-appears at the last id) and analysed again: a score may never
+        # depend on what an earlier analysis saw
+        had = {(a, b) for (a, b, _) in triples}
+        free = [(a, b) for a in known for b in known if a < b and (a, b) not in had]
+        if free:
+            (a, b), t = rng.choice(free), rng.choice(ts)
+        else:
+            (a, b), t = rng.choice(sorted(had)), ts[-1]
+        ok = True
+        for (gg, LL) in ((g, L), (gv, L), (gn, L2), (g1, L)):
+            try:
+                gg.add_interaction(LL.node(a), LL.node(b), t=LL.time(t))
+            except Exception:
+                ok = False
+        if ok:
+            more.append(conf_line("quick", sorted(set(map(tuple, triples)) | {(a, b, t), (b, a, t)})))
     head = {"op": "new", "dir": False, "rem": True, "fork": False, "res": "ok", "lab": lab,
             "obs": core.observe(core.new_graph(False, True), L, known, grid)}
-    return [head, {"op": "conf", "fork": False, "res": "ok", "triples": [list(t) for t in triples],
-                   "labels": [[n, repr(labels[n])] for n in known], "label_values": repr([vx, vy, rx, ry, one]), "obs": obs, "es": es, "ss": ss}]
+    return [head, first] + more
 
 
 def run(prop, tier, seed):
